@@ -568,7 +568,15 @@ func loc(fset *token.FileSet, pos token.Pos) string {
 // callSSA interprets a call to function fn with arguments args,
 // and lexical environment env, returning its result.
 // callpos is the position of the callsite.
+var callTrace = os.Getenv("GOSYM_CALLTRACE") != ""
+var callDepth int
+
 func callSSA(i *interpreter, caller *frame, callpos token.Pos, fn *ssa.Function, args []value, env []value) value {
+	if callTrace {
+		fmt.Fprintf(os.Stderr, "%*s> %s\n", callDepth, "", fn)
+		callDepth++
+		defer func() { callDepth-- }()
+	}
 	if i.mode&EnableTracing != 0 {
 		fset := fn.Prog.Fset
 		// TODO(adonovan): fix: loc() lies for external functions.
